@@ -1,18 +1,22 @@
 (* C11: results are invariant under where in the buffer the text starts.
-   PROVED for the models of ParseCallIDVal, ParseUIntVal / ParseExpiresVal, ParseCLenVal,
-   ParseCSeqVal, ParseFLine (Shift.v) and ParseNameAddrPVal for every header kind (ShiftFb.v): for every buffer, every start offset inside it, every
-   sequence of junk bytes put in front, valid input or not - the call on the longer buffer, started
-   |junk| further on with a fresh object, returns the same verdict, the returned offset moved by
-   |junk|, every numeric / type value unchanged, every reported field moved by exactly |junk| and
-   every field that was not set still unset.  The relation R* says, state by state, which fields
-   are live; `res_shift` is: same kind of result, offset + |junk|, same verdict, states related.
-   (Offsets are in N: the 65,535 limit is not part of the statement.)  The rule behind it,
-   `C11_shift_rule`, is parser independent.
+   PROVED for the model of ParseSIPMsg (every flag set, every header / contact capacity, fresh
+   object) and of every stand-alone streaming parser under it: ParseCallIDVal, ParseUIntVal /
+   ParseExpiresVal, ParseCLenVal, ParseCSeqVal, ParseFLine (Shift.v), ParseNameAddrPVal for every
+   header kind (ShiftFb.v), ParseAllContactValues for every capacity, the P-Asserted-Identity list,
+   ParseHdrLine, ParseHeaders (ShiftMsg.v).  For every buffer, every start offset inside it, every
+   sequence of junk bytes put in front, valid input or not: the call on the longer buffer, started
+   |junk| further on, returns the same verdict, the returned offset moved by |junk|, every numeric /
+   type / flag value unchanged, every reported field moved by exactly |junk| and every field that was
+   not set still unset.  The relations (Rci, Rui, Rcs, Rfl, R0, Rct0, Rpa0, Rhdr, Rhs0, Rmsg) say, state
+   by state, which fields are live; reading a field back (zget) is shift invariant.  The rules behind
+   it, `C11_shift_rule` and its position-indexed variant, are parser independent.
+   Offsets are in N: the point where the text ends at the 65,535-byte addressing limit is not part
+   of the statement (C13 / C04 oracle and correspondence).
    Relocation of a parsed URI: every present component moves by the same amount, exact inside 16 bits.
-   PARTIAL: not proved for the parameter parsers, the lists, the header
-   line / block and the message: shift oracle (junk prefixes, k up to 65535 - len) and the
-   correspondence at offsets 0 and k. *)
-From Sipsp Require Import Harness URIViews Shift ShiftFb.
+   PARTIAL: not proved for ParseTokenParam and the URI parameter / URI header lists (not used by the
+   message parser): shift oracle (junk prefixes, k up to 65535 - len) and the correspondence at
+   offsets 0 and k. *)
+From Sipsp Require Import Harness URIViews Shift ShiftFb ShiftMsg.
 
 Theorem C11_shift_rule : forall (S : Type) (iter : list byte -> list byte -> N -> S -> ires S) (J : list byte) (R : S -> S -> Prop),
   (forall pre rest i s s', i = nnat (length pre) -> R s s' ->
@@ -44,6 +48,27 @@ Proof. exact fline_shift. Qed.
 Theorem C11_name_addr : forall h junk buf offs, offs <= nnat (length buf) ->
   res_shiftI (rev junk) (R0 (nnat (length junk))) (parse_nameaddr h buf offs pfrom0) (parse_nameaddr h (junk ++ buf) (offs + nnat (length junk)) pfrom0).
 Proof. exact nameaddr_shift. Qed.
+
+(* the multi-value lists, any capacity *)
+Theorem C11_contacts : forall n junk buf offs, offs <= nnat (length buf) ->
+  res_shiftI (rev junk) (Rct0 (nnat (length junk)))
+    (parse_all_contacts buf offs (contacts_init (repeat pfrom0 n)))
+    (parse_all_contacts (junk ++ buf) (offs + nnat (length junk)) (contacts_init (repeat pfrom0 n))).
+Proof. exact contacts_shift. Qed.
+
+(* the whole message: mrel = same kind of result, offset + |junk|, same verdict, objects related by Rmsg
+   (first line by Rfl, header list and parsed values by Rhs0, body / raw message / buffer length / start
+   offset moved by |junk|) *)
+Theorem C11_message : forall flags junk buf offs L nh nc, offs <= nnat (length buf) ->
+  mrel (nnat (length junk)) (parse_sipmsg flags buf offs (msg_init L (repeat hdr0 nh) (repeat pfrom0 nc)))
+                            (parse_sipmsg flags (junk ++ buf) (offs + nnat (length junk)) (msg_init L (repeat hdr0 nh) (repeat pfrom0 nc))).
+Proof. exact fresh_message_shift. Qed.
+(* any two not-yet-started objects that are related (this covers Reset objects and different Buf lengths) *)
+Theorem C11_message_related_objects : forall flags junk buf offs m m', offs <= nnat (length buf) ->
+  m_state m = MInit -> m_state m' = MInit -> Rfl (nnat (length junk)) (m_fl m) (m_fl m') -> Rhs0 (nnat (length junk)) (m_hs m) (m_hs m') ->
+  h_state (hl_slot (hs_l (m_hs m))) = HInit -> m_body m' = m_body m -> Rraw (nnat (length junk)) (m_raw m) (m_raw m') ->
+  mrel (nnat (length junk)) (parse_sipmsg flags buf offs m) (parse_sipmsg flags (junk ++ buf) (offs + nnat (length junk)) m').
+Proof. exact message_shift. Qed.
 
 (* spelled out for a successfully parsed Call-ID and CSeq: what "related" means at the end *)
 Theorem C11_callid_success : forall junk buf offs o s, offs <= nnat (length buf) ->
@@ -87,4 +112,5 @@ Theorem C11_shift_is_exact_inside_16_bits : forall start offs f f',
 Proof. exact adjust_exact. Qed.
 Print Assumptions C11_first_line.
 Print Assumptions C11_name_addr.
+Print Assumptions C11_message.
 Print Assumptions C11_cseq.
